@@ -10,6 +10,7 @@
 # information at https://github.com/ddsmt/ddSMT/blob/master/LICENSE.
 
 import io
+import os
 import textwrap
 import typing
 
@@ -209,9 +210,22 @@ def write_smtlib(file: typing.TextIO, exprs: typing.List[Node]):
 
 
 def write_smtlib_to_file(filename: str, exprs: typing.List[Node]):
-    """Use ``write_smtlib`` to write to a filename."""
-    with open(filename, 'w') as file:
-        write_smtlib(file, exprs)
+    """Use ``write_smtlib`` to write to a filename.
+
+    The file is written to a temporary file next to ``filename`` and then
+    moved into place, so that ``filename`` holds a complete file at every
+    instant, even if ddSMT is interrupted or the file is read while ddSMT is
+    still running.
+    """
+    tmpname = f'{filename}.{os.getpid()}.tmp'
+    try:
+        with open(tmpname, 'w') as file:
+            write_smtlib(file, exprs)
+        os.replace(tmpname, filename)
+    except BaseException:
+        if os.path.exists(tmpname):
+            os.unlink(tmpname)
+        raise
 
 
 def write_smtlib_to_str(exprs: typing.List[Node]):
